@@ -39,8 +39,8 @@ claimed = {
              note="Preconditions as listed in the evidence (non-empty region name, RegionStart 1, RegionEnd = length, version set, >= 1 attribute). The independent-writer clause is covered only by the repository's excerpt as a translator-validation vector."),
  "C16": dict(design="5/C16", text="rebase.Parse from SSA on generated listings (prose line, supplier table indented with spaces or tabs, 0..2/3 records) whose field texts, enzyme names, supplier letters and supplier names are symbolic: one entry per record keyed by name, every field verbatim, isoschizomers split at commas, empty fields stay empty, each supplier letter decoded to the name given in the listing's own table. Export: the JSON export parses back to the same map under the json field/tag contract model.",
              note="Enzyme names and supplier letters are assumed pairwise distinct. JSON text layer not modelled (see C15)."),
- "C15": dict(design="5/C15", text="json.MarshalIndent -> polyjson.Parse on structured annotated sequences (symbolic strings, flags and bounds; references, Other map and attribute maps absent / empty / populated; nested location trees): every field except ParentSequence equal, every feature re-linked to a parent and reporting the same sequence as before.",
-             note="encoding/json is replaced by a contract model that reads the real struct types and tags of /repo's current source through go/types (exported fields, names, '-', omitempty, duplicate-name elimination, case-insensitive decode, nil<->null); JSON text syntax/escaping/non-ASCII and the format->JSON->format sentence are outside the claim. Counterexamples are replayed natively against the real encoding/json."),
+ "C15": dict(design="5/C15", text="json.MarshalIndent -> polyjson.Parse on structured annotated sequences (symbolic strings, flags and bounds; references, Other map and attribute maps absent / empty / populated; nested location trees): every field except ParentSequence equal, every feature re-linked to a parent and reporting the same sequence as before; and for one GenBank and one GFF record with symbolic contents, writing the parsed input directly and writing it after a detour through JSON give byte-identical text.",
+             note="encoding/json is replaced by a contract model that reads the real struct types and tags of /repo's current source through go/types (exported fields, names, '-', omitempty, duplicate-name elimination, case-insensitive decode, nil<->null); JSON text syntax/escaping/non-ASCII and the Write/Read file path are outside the claim (seeded change C15-m2, which corrupts the JSON text in Write, is therefore not detected). Counterexamples are replayed natively against the real encoding/json."),
  "C13": dict(design="5/C13", text="fasta.Build / Parse / ParseConcurrent from SSA with record names and every sequence letter symbolic: Parse(Build(x)) = x, the parse result is unchanged by the harness's own re-wrapping (widths 1/3/60, blank lines, ';' comments, CRLF), sequences of 65536 letters (quick) and 65535/65536/65537/70000 (thorough) survive, and the streaming parser delivers the records in order and closes its channel exactly once for channel capacities 0/1/1000 over all explored schedules.",
              note="bufio.Scanner (incl. its token-size limit and Buffer()), bytes.Reader and bytes.Buffer are models; goroutines are scheduled at synchronisation points only (default schedule, its LIFO mirror and all schedules deviating at <= 2 (quick) / 3 (thorough) choice points); gzip, files and the race detector are outside the claim."),
  "C20": dict(design="5/C20", text="uniprot.Parse (the token loop) executed from SSA against every event script up to the stated length (entries, entries damaged inside, other elements/tokens, syntax errors), channel capacities 0/1/100, both documented consumer shapes and every explored schedule: entries before the damage are delivered once and in order, a damaged document reports at least one error, both channels are closed and the parser terminates (no deadlock, step budget as termination obligation).",
